@@ -18,6 +18,11 @@ FANS = list(rb.FANS)
 RID_CHARS = "ABCDEFGHIJKLMNOPQRSTUVWXYZ0123456789"
 
 
+# 16/32-bit values that read, in little- or big-endian, as the protocol's own markers
+COINCIDENCES_16 = [0xF0FE, 0xFEF0, 0x0A0A, 0x3030, 0x7C7C, 0x000A, 0x0A00, 0xFE00, 0x00F0, 0xF000, 0x00FE, 0xFFFF, 0xFEFE, 0xF0F0]
+COINCIDENCES_32 = [0xF0FE, 0xFEF0, 0x0000F0FE & 0xFFFF, 0x00010A00 % 86400, 0x0A0A, 0x3030, 0x00007C7C % 86400, 61694, 65264, 2570, 12336]
+
+
 def gen_state1(r, i):
     d = {"state": r.choice(["ON", "OFF"]), "power": r.randrange(65536), "time_left": r.randrange(86400),
          "time_on": r.randrange(86400), "auto_shutdown": r.randrange(86400)}
@@ -34,6 +39,18 @@ def gen_state1(r, i):
         e = r.choice([0, 1, 255, 256, 65535, 86399, 3599, 3600, 59, 60])
         k = r.choice(["power", "time_left", "time_on", "auto_shutdown"])
         d[k] = min(e, 65535 if k == "power" else 86399)
+    x = r.random()
+    if x < 0.06:
+        # values whose bytes on the wire spell one of the protocol's own markers (fe f0, f0 fe, 0a, 30 30, 7c)
+        k = r.choice(["power", "time_left", "time_on", "auto_shutdown"])
+        d[k] = r.choice(COINCIDENCES_16 if k == "power" else [v for v in COINCIDENCES_16 + COINCIDENCES_32 if v < 86400])
+    elif x < 0.26:
+        # what a real boiler reports: the three counters hang together (left = auto-shutdown - on), give or take the second
+        # the device needs to sample them
+        d["state"] = "ON" if r.random() < 0.8 else "OFF"
+        d["auto_shutdown"] = r.choice([3600, 5400, 7200, 10800, 86340, r.randrange(3600, 86400)])
+        d["time_on"] = r.randrange(0, d["auto_shutdown"] + 1)
+        d["time_left"] = max(0, min(86399, d["auto_shutdown"] - d["time_on"] + r.choice([0, 0, 1, -1, 1, -1, 2, -2, 60, -60])))
     return d
 
 
@@ -51,6 +68,10 @@ def gen_thermo(r, i):
         d["temp_tenths"] = (i // 3 * 211) % 65536
     if i % 3 == 1:
         d["target"] = (i // 3) % 256
+    if r.random() < 0.05:
+        d["temp_tenths"] = r.choice(COINCIDENCES_16)
+    elif r.random() < 0.03:
+        d["target"] = r.choice([0x0A, 0x30, 0x7C, 0xFE, 0xF0, 0x00, 0xFF])
     return d
 
 
